@@ -292,12 +292,23 @@ def r6_charset_admits_every_delimiter_choice(ctx):
         yield o
 
 
+def r8_no_state_between_documents(ctx):
+    """the result for a document is the same under every encoding only if it depends on nothing but the document and the
+    parameters of the call: a map, a verdict or a table remembered from an earlier validation (under another character
+    set, another version) makes ISA16 - the one delimiter that is validated as a value - right or wrong by history.
+    C15.R9 / C18.R2 (shared): the validating modules keep no module/class-level state."""
+    from . import c15
+    for o in c15.validator_keeps_no_state(ctx):
+        yield o
+
+
 RULES = [
     Rule('C12.R1', 'no literal delimiter on the input path beyond the enumerated, re-verified exemptions', r1_literal_delimiters, floor=3),
     Rule('C12.R2', 'acknowledgement delimiters are literals; the input terminators flow nowhere in the visitors', r2_ack_delimiters, floor=7),
     Rule('C12.R3', 'delimiter provenance, CR/LF strip set, ISA not sub-split (shared with C01.R4-R6)', r3_shared_with_c01, floor=18),
     Rule('C12.R4', 'validation never inspects re-formatted text', r4_parsed_values_only, floor=1),
     Rule('C12.R7', 'Composite.__init__ splits exactly at the separator given, for every separator and text shape (constant propagation)', r7_split_at_the_declared_separator, floor=1),
+    Rule('C12.R8', 'shared with C15.R9/C18.R2: the validating modules keep no module/class-level state and cache nothing across calls', r8_no_state_between_documents, floor=8),
     Rule('C12.R6', 'shared with C13.R1: the character-set recognisers accept every member of their set (any may be a separator, checked as ISA16)', r6_charset_admits_every_delimiter_choice, floor=15),
     Rule('C12.R5', 'no delimiter attribute of a Segment that the reader leaves at its literal default is read on the input path', r5_defaulted_delimiters_not_read, floor=1),
 ]
